@@ -109,6 +109,8 @@ type NXyzDci = Xyz<palette::encoding::DciP3, T>;
 type NLabDci = Lab<palette::encoding::DciP3, T>;
 type NDciP3 = palette::rgb::DciP3<T>;
 type NLinDciP3 = palette::rgb::LinDciP3<T>;
+type NDciP3Plus = palette::rgb::DciP3Plus<palette::encoding::P3Gamma, T>;
+type NLinDciP3Plus = palette::rgb::LinDciP3Plus<palette::encoding::P3Gamma, T>;
 
 macro_rules! rgbnode { ($ty:ty, $name:expr) => { node3!($ty, $name, red, green, blue, [mm!($ty, min_red, max_red), mm!($ty, min_green, max_green), mm!($ty, min_blue, max_blue)]); }; }
 macro_rules! xyznode { ($ty:ty, $name:expr) => { node3!($ty, $name, x, y, z, [mm!($ty, min_x, max_x), mm!($ty, min_y, max_y), mm!($ty, min_z, max_z)]); }; }
@@ -144,6 +146,8 @@ xyznode!(NXyzDci, "xyzdci");
 labnode!(NLabDci, "labdci");
 rgbnode!(NDciP3, "dcip3");
 rgbnode!(NLinDciP3, "lindcip3");
+rgbnode!(NDciP3Plus, "dcip3plus");
+rgbnode!(NLinDciP3Plus, "lindcip3plus");
 
 #[derive(Clone, Copy)]
 pub struct Out { pub v: V, pub ok: bool }
@@ -239,8 +243,8 @@ macro_rules! universe {
     };
 }
 
-universe!([NXyz, NLab, NSrgb, NLinSrgb, NAdobe, NLinAdobe, NP3, NLinP3, NRec2020, NLinRec2020, NRec709, NHsvAdobe, NHslP3, NHwbRec2020, NHsv, NHsl, NHwb, NHsvLin, NHslLin, NHwbRec709, NXyz50, NLab50, NLch50, NLuv50, NProPhoto, NLinProPhoto, NHsvProPhoto, NXyzDci, NLabDci, NDciP3, NLinDciP3];
-          [NXyz, NLab, NSrgb, NLinSrgb, NAdobe, NLinAdobe, NP3, NLinP3, NRec2020, NLinRec2020, NRec709, NHsvAdobe, NHslP3, NHwbRec2020, NHsv, NHsl, NHwb, NHsvLin, NHslLin, NHwbRec709, NXyz50, NLab50, NLch50, NLuv50, NProPhoto, NLinProPhoto, NHsvProPhoto, NXyzDci, NLabDci, NDciP3, NLinDciP3]);
+universe!([NXyz, NLab, NSrgb, NLinSrgb, NAdobe, NLinAdobe, NP3, NLinP3, NRec2020, NLinRec2020, NRec709, NHsvAdobe, NHslP3, NHwbRec2020, NHsv, NHsl, NHwb, NHsvLin, NHslLin, NHwbRec709, NXyz50, NLab50, NLch50, NLuv50, NProPhoto, NLinProPhoto, NHsvProPhoto, NXyzDci, NLabDci, NDciP3, NLinDciP3, NDciP3Plus, NLinDciP3Plus];
+          [NXyz, NLab, NSrgb, NLinSrgb, NAdobe, NLinAdobe, NP3, NLinP3, NRec2020, NLinRec2020, NRec709, NHsvAdobe, NHslP3, NHwbRec2020, NHsv, NHsl, NHwb, NHsvLin, NHslLin, NHwbRec709, NXyz50, NLab50, NLch50, NLuv50, NProPhoto, NLinProPhoto, NHsvProPhoto, NXyzDci, NLabDci, NDciP3, NLinDciP3, NDciP3Plus, NLinDciP3Plus]);
 
 fn lohi(n: &NodeInfo, alpha: bool) -> (Value, Value) {
     let mut lo: Vec<Value> = (n.bounds)().iter().map(|(lo, _)| match lo { Some(x) => x.ex(), None => json!([]) }).collect();
